@@ -1334,11 +1334,14 @@ func init() {
 				if msg, isBad := bad[p]; isBad {
 					c.Fail("default:"+p, di.pos[p], "%s", msg)
 				} else {
-					d := "?"
-					if v := di.def[p]; v != nil {
-						d = v.String()
+					v := di.def[p]
+					if v == nil {
+						// the value a setting falls back to is a fixed one: a default computed from another setting couples the two
+						// (switching one on silently switches the other)
+						c.Fail("default:"+p, di.pos[p], "the default of %s is not a constant: the setting's unset value depends on something else (another setting), so that setting changes behaviour that belongs to this one", p)
+						continue
 					}
-					c.Pass("default:"+p, di.pos[p], "guarded, default %s", d)
+					c.Pass("default:"+p, di.pos[p], "guarded, default %s", v.String())
 				}
 			}
 			// mode switches: a setting whose *unset* value selects behaviour somewhere in the module (a branch on
